@@ -196,6 +196,8 @@ func (pb *PrimaryBlock) UnmarshalCbor(r io.Reader) error {
 		return err
 	} else if crcT > uint64(CRC32) {
 		return fmt.Errorf("unknown CRCType %d", crcT)
+	} else if hasCRC := blockLen == 9 || blockLen == 11; hasCRC != (CRCType(crcT) != CRCNo) {
+		return fmt.Errorf("CRCType %d does not match an array of %d elements", crcT, blockLen)
 	} else {
 		pb.CRCType = CRCType(crcT)
 	}
